@@ -16,7 +16,7 @@ struct Ctx {
 
 impl Ctx {
     fn over_budget(&self) -> bool {
-        self.evals > 1500 || self.start.elapsed().as_secs() > 90
+        self.evals > 4000 || self.start.elapsed().as_secs() > 120
     }
 
     /// Some(event index) if the candidate still shows the same finding code.
@@ -206,6 +206,123 @@ fn shrink_bytes(ctx: &mut Ctx, t: &mut Trace) {
     }
 }
 
+/// Splits one V9 / IPFIX packet into (header, sets); None if it does not frame cleanly.
+fn split_sets(pkt: &[u8]) -> Option<(Vec<u8>, Vec<Vec<u8>>)> {
+    if pkt.len() < 4 {
+        return None;
+    }
+    let ver = u16::from(pkt[0]) << 8 | u16::from(pkt[1]);
+    let hdr = match ver {
+        9 => 20,
+        10 => 16,
+        _ => return None,
+    };
+    if pkt.len() < hdr {
+        return None;
+    }
+    let mut sets = Vec::new();
+    let mut pos = hdr;
+    while pos < pkt.len() {
+        if pkt.len() - pos < 4 {
+            return None;
+        }
+        let l = usize::from(u16::from(pkt[pos + 2]) << 8 | u16::from(pkt[pos + 3]));
+        if l < 4 || pos + l > pkt.len() {
+            return None;
+        }
+        sets.push(pkt[pos..pos + l].to_vec());
+        pos += l;
+    }
+    Some((pkt[..hdr].to_vec(), sets))
+}
+
+fn join_sets(hdr: &[u8], sets: &[Vec<u8>], old_nsets: usize) -> Vec<u8> {
+    let mut h = hdr.to_vec();
+    let ver = u16::from(h[0]) << 8 | u16::from(h[1]);
+    let total: usize = h.len() + sets.iter().map(|s| s.len()).sum::<usize>();
+    if ver == 10 {
+        h[2] = (total >> 8) as u8;
+        h[3] = total as u8;
+    } else {
+        // V9: keep "count = number of flowsets" packets self-delimiting
+        let count = usize::from(u16::from(h[2]) << 8 | u16::from(h[3]));
+        if count == old_nsets {
+            h[2] = (sets.len() >> 8) as u8;
+            h[3] = sets.len() as u8;
+        }
+    }
+    let mut v = h;
+    for s in sets {
+        v.extend_from_slice(s);
+    }
+    v
+}
+
+/// Structure-aware: drop whole sets from V9 / IPFIX packets, then shorten the body of the
+/// remaining sets from the tail in 4-byte steps (records / trailing template records).
+fn shrink_sets(ctx: &mut Ctx, t: &mut Trace) {
+    for i in 0..t.events.len() {
+        let Ev::Deliver { buf, parts, cut, .. } = &t.events[i] else { continue };
+        if cut.is_some() || parts.iter().sum::<usize>() != buf.len() || parts.is_empty() {
+            continue;
+        }
+        let nparts = parts.len();
+        for pi in 0..nparts {
+            let mut progress = true;
+            while progress && !ctx.over_budget() {
+                progress = false;
+                let Ev::Deliver { buf, parts, .. } = &t.events[i] else { break };
+                let off: usize = parts[..pi].iter().sum();
+                let Some((hdr, sets)) = split_sets(&buf[off..off + parts[pi]]) else { break };
+                if sets.is_empty() {
+                    break;
+                }
+                let n = sets.len();
+                let mut cands: Vec<Vec<Vec<u8>>> = Vec::new();
+                if n > 1 {
+                    for k in 0..n {
+                        let mut s2 = sets.clone();
+                        s2.remove(k);
+                        cands.push(s2);
+                    }
+                }
+                // halve / trim set bodies (keep the 4-byte set header, fix its length)
+                for k in 0..n {
+                    let body = sets[k].len() - 4;
+                    for keep in [body / 2, body.saturating_sub(4), body.saturating_sub(1)] {
+                        if keep < body {
+                            let mut s2 = sets.clone();
+                            let mut x = s2[k][..4 + keep].to_vec();
+                            let l = x.len();
+                            x[2] = (l >> 8) as u8;
+                            x[3] = l as u8;
+                            s2[k] = x;
+                            cands.push(s2);
+                        }
+                    }
+                }
+                for s2 in cands {
+                    let newpkt = join_sets(&hdr, &s2, n);
+                    let mut cand = t.clone();
+                    if let Ev::Deliver { buf, parts, .. } = &mut cand.events[i] {
+                        let off: usize = parts[..pi].iter().sum();
+                        buf.splice(off..off + parts[pi], newpkt.iter().cloned());
+                        parts[pi] = newpkt.len();
+                    }
+                    if ctx.fails(&cand).is_some() {
+                        *t = cand;
+                        progress = true;
+                        break;
+                    }
+                    if ctx.over_budget() {
+                        return;
+                    }
+                }
+            }
+        }
+    }
+}
+
 pub fn minimise(rf: &ReplayFile, subprocess: bool) -> ReplayFile {
     let mut ctx = Ctx {
         prop: rf.property.clone(),
@@ -231,6 +348,7 @@ pub fn minimise(rf: &ReplayFile, subprocess: bool) -> ReplayFile {
     ddmin_events(&mut ctx, &mut t);
     shrink_parts(&mut ctx, &mut t);
     ddmin_events(&mut ctx, &mut t);
+    shrink_sets(&mut ctx, &mut t);
     // byte-level shrinking changes what the sender sent; only for survival / accounting
     // properties, where any byte string is a legitimate input
     if matches!(rf.property.as_str(), "C01" | "C02" | "C15" | "C16") {
